@@ -1,6 +1,7 @@
 import SkgVerif.Lemmas.Edges
 import SkgVerif.Lemmas.Median
 import SkgVerif.Gen.Tables
+import SkgVerif.Props.Transcribed.C02
 /-!
 # C02 — lag edges are well-formed and honour n_lags and maxlag
 -/
